@@ -997,19 +997,10 @@ def _simplify_function_call(call: HplFunctionCall) -> HplExpression:
 def _simplify_function_sum(call: HplFunctionCall) -> HplExpression:
     arg: HplExpression = _simplify(call.arguments[0])
     if isinstance(arg, HplSet):
-        variables: List[HplExpression] = []
-        literals: List[Union[int, float]] = []
-        for v in arg.values:
-            if is_number_literal(v):
-                assert isinstance(v, HplLiteral)
-                literals.append(v.value)
-            else:
-                variables.append(v)
-        n = sum(literals)
-        expr: HplExpression = HplLiteral.number(n)
-        for v in variables:
-            expr = HplBinaryOperator.addition(v, expr)
-        return _simplify(expr)
+        # a set holds each value once: members that are not literals may turn out to be equal
+        if all(is_number_literal(v) for v in arg.values):
+            return HplLiteral.number(sum(set(v.value for v in arg.values)))
+        return call
     if isinstance(arg, HplRange):
         if is_number_literal(arg.min_value) and is_number_literal(arg.max_value):
             n = 0
@@ -1024,23 +1015,15 @@ def _simplify_function_sum(call: HplFunctionCall) -> HplExpression:
 def _simplify_function_prod(call: HplFunctionCall) -> HplExpression:
     arg: HplExpression = _simplify(call.arguments[0])
     if isinstance(arg, HplSet):
-        variables: List[HplExpression] = []
-        literals: List[Union[int, float]] = []
-        for v in arg.values:
-            if is_number_literal(v):
-                assert isinstance(v, HplLiteral)
-                literals.append(v.value)
-            else:
-                variables.append(v)
-        n = 1
-        for v in literals:
-            n *= v
-        expr: HplExpression = HplLiteral.number(n)
-        if n == 0:
-            return expr
-        for v in variables:
-            expr = HplBinaryOperator.multiplication(v, expr)
-        return _simplify(expr)
+        # a set holds each value once: members that are not literals may turn out to be equal
+        if any(is_number_literal(v) and v.value == 0 for v in arg.values):
+            return HplLiteral.number(0)
+        if all(is_number_literal(v) for v in arg.values):
+            n = 1
+            for value in set(v.value for v in arg.values):
+                n *= value
+            return HplLiteral.number(n)
+        return call
     if isinstance(arg, HplRange):
         if is_number_literal(arg.min_value) and is_number_literal(arg.max_value):
             n = 1
